@@ -134,7 +134,7 @@ func (c *ICell) Field(t types.Type, name string) *ICell {
 		return nil
 	}
 	for i := 0; i < st.NumFields() && i < len(c.Fields); i++ {
-		if st.Field(i).Name() == name {
+		if FN(st.Field(i)) == name {
 			return c.Fields[i]
 		}
 	}
